@@ -65,6 +65,11 @@ type modelRes struct {
 	Tot  int    `json:"tot"`
 	Ech  int    `json:"ech"`
 	St   bool   `json:"st"`
+	// the chase dimension (gap C17-r3-1): entry tokens charged to the internal chase sub-query, the reply lacks the
+	// chase target, the chase met a cached target with an empty entry limiter
+	Ich  int  `json:"ich"`
+	Part bool `json:"part"`
+	Cz   bool `json:"cz"`
 }
 
 type modelPost struct {
@@ -103,6 +108,10 @@ type behaviour struct {
 	Clients    []string `json:"clients"`
 	Forms      []string `json:"forms"`
 	Steps      []step   `json:"steps"`
+	// Aliases: model questions the scripted upstream answers with a bare CNAME to AliasTarget (the cache completes the
+	// answer by chasing the target through its internal Queryer)
+	Aliases     []string `json:"aliases"`
+	AliasTarget string   `json:"aliasTarget"`
 }
 
 // ---- addresses and cookies ------------------------------------------------------
@@ -228,6 +237,11 @@ type rig struct {
 	slots   map[*rate.Limiter]bool   // pool slots taken by this rig's names
 	elimOrg map[*rate.Limiter]rate.Limit
 
+	// the chase dimension: model alias questions, their common target, and (lower-case) alias name -> target name
+	aliases     map[string]bool
+	aliasTarget string
+	aliasNames  map[string]string
+
 	// gating of the scripted upstream
 	gated  bool
 	gates  map[string]chan struct{} // lower-case qname -> release
@@ -293,8 +307,55 @@ func (r *rig) respond(_ context.Context, _ *middleware.Chain, req *dns.Msg) *dns
 	m := new(dns.Msg)
 	m.SetReply(req)
 	m.RecursionAvailable = true
+	r.mu.Lock()
+	target, isAlias := r.aliasNames[name]
+	r.mu.Unlock()
+	if isAlias {
+		// a bare CNAME: the cache has to chase the target itself (an internal sub-query through its Queryer)
+		m.Answer = []dns.RR{&dns.CNAME{Hdr: dns.RR_Header{Name: req.Question[0].Name, Rrtype: dns.TypeCNAME, Class: dns.ClassINET, Ttl: 300},
+			Target: target}}
+		return m
+	}
 	m.Answer = upstreamAnswer(req.Question[0].Name)
 	return m
+}
+
+// setAliases declares the alias questions of a behaviour (before any traffic).
+func (r *rig) setAliases(aliases []string, target string) {
+	r.mu.Lock()
+	r.aliases, r.aliasTarget, r.aliasNames = map[string]bool{}, target, map[string]string{}
+	for _, a := range aliases {
+		r.aliases[a] = true
+	}
+	r.mu.Unlock()
+	for _, a := range aliases {
+		r.qname(a) // registers alias name -> target name
+	}
+}
+
+// targetOf: the name the cache chases for an alias name of this rig ("" = not an alias).
+func (r *rig) targetOf(name string) string {
+	r.mu.Lock()
+	defer r.mu.Unlock()
+	return r.aliasNames[strings.ToLower(name)]
+}
+
+// aliasAnswer checks a complete reply to an alias question: the CNAME, then the upstream's answer for the target.
+// partial = the CNAME alone (the chase of the target came back empty).
+func aliasAnswer(name, target string, m *dns.Msg) (foreign string, partial bool) {
+	if len(m.Answer) == 0 {
+		return "no answer records for an alias question", false
+	}
+	c, ok := m.Answer[0].(*dns.CNAME)
+	if !ok || !strings.EqualFold(c.Hdr.Name, name) || !strings.EqualFold(c.Target, target) {
+		return "first answer record " + m.Answer[0].String() + " is not the alias' CNAME", false
+	}
+	if len(m.Answer) == 1 {
+		return "", true
+	}
+	rest := m.Copy()
+	rest.Answer = rest.Answer[1:]
+	return answerIsOwn(target, rest), false
 }
 
 // isBig: names of the model's big class -- their answer (~90 A records, > 1232 bytes) fits no UDP client of the class.
@@ -370,7 +431,11 @@ func (r *rig) releaseAll() {
 func (r *rig) asked(name string) int {
 	r.mu.Lock()
 	defer r.mu.Unlock()
-	return r.hits[strings.ToLower(name)]
+	n := r.hits[strings.ToLower(name)]
+	if t, ok := r.aliasNames[strings.ToLower(name)]; ok {
+		n += r.hits[strings.ToLower(t)] // an alias question may make the cache ask for its target as well
+	}
+	return n
 }
 
 // qname maps a model question to a name of this rig; "fresh" is a new name every time.
@@ -398,6 +463,16 @@ func (r *rig) qname(q string) string {
 		}
 	}
 	r.names[q] = name
+	if r.aliases[q] && r.aliasTarget != "" {
+		// (r.mu is held; the target's own name is fixed first so both stay consistent)
+		tn, ok := r.names[r.aliasTarget]
+		if !ok {
+			r.mu.Unlock()
+			tn = r.qname(r.aliasTarget)
+			r.mu.Lock()
+		}
+		r.aliasNames[strings.ToLower(name)] = tn
+	}
 	return name
 }
 
@@ -613,6 +688,7 @@ type observation struct {
 	Foreign   string   // a complete NOERROR reply whose answer is not the upstream's answer for the question
 	TC        bool
 	Reply     []byte
+	Partial   bool // a complete NOERROR reply to an alias question that carries the CNAME alone
 }
 
 func (o observation) seen() string {
@@ -748,7 +824,11 @@ func (r *rig) finishObs(o *observation, q *request, writes [][]byte, tailBefore 
 	o.Rcode = m.Rcode
 	o.TC = m.Truncated
 	if m.Rcode == dns.RcodeSuccess && !m.Truncated {
-		o.Foreign = answerIsOwn(q.name, m)
+		if t := r.targetOf(q.name); t != "" {
+			o.Foreign, o.Partial = aliasAnswer(q.name, t, m)
+		} else {
+			o.Foreign = answerIsOwn(q.name, m)
+		}
 	}
 	o.Contract = append(o.Contract, contract(q, m, len(o.Reply))...)
 	if opt := m.IsEdns0(); opt != nil {
